@@ -230,6 +230,13 @@ func deref(cur any) (any, string, bool) {
 				cur = d
 				break
 			}
+			if d, isPtr, isNil := derefTypedMap(cur); isPtr {
+				if isNil {
+					return nil, rNilPointer, thru
+				}
+				cur = d
+				break
+			}
 			for _, rk := range rowKinds {
 				if d, isPtr, isNil := rk.derefp(cur); isPtr {
 					if isNil {
@@ -273,6 +280,9 @@ func index(cur any, st Step) (any, string, string) {
 		return v, o, kind
 	}
 	if v, o, kind, isPage := indexPage(cur, st.K, pfx); isPage {
+		return v, o, kind
+	}
+	if v, o, kind, isTM := indexTypedMap(cur, st.K, pfx); isTM {
 		return v, o, kind
 	}
 	for _, rk := range rowKinds {
@@ -609,6 +619,9 @@ func validSteps(cur any) []string {
 	if valid, _, ok := pageSteps(cur); ok {
 		return valid
 	}
+	if keys, ok := typedMapKeys(cur); ok {
+		return keys
+	}
 	if keys, _, _, ok := intMapInfo(cur); ok {
 		return intMapValid(keys)
 	}
@@ -730,6 +743,9 @@ func isMapSS(cur any) bool {
 func invalidSteps(cur any, avoid func(id string) bool) []string {
 	if _, invalid, ok := pageSteps(cur); ok {
 		return invalid
+	}
+	if _, ok := typedMapKeys(cur); ok {
+		return []string{"zz", "nope", "7", "rust"}
 	}
 	if isMapSS(cur) && avoid != nil && avoid(kfMapSS) {
 		return nil // missing key of a map[string]string: region of the open finding
